@@ -30,6 +30,10 @@ class Order:
         """facts: iterable of ('cmp',op,a,b) known true"""
         self.ge0 = []  # list of Lin known >= 0
         self.eq0 = []
+        self.ne = []   # (a, b) known different
+        self._busy = False
+        self._ne_done = False
+        self._sat_done = set()
         self.unsigned = unsigned
         for f in facts:
             self.add_fact(f)
@@ -56,6 +60,33 @@ class Order:
             self.ge0.append(d)
             self.ge0.append(as_lin(neg(d)))
             self.eq0.append(d)
+        elif op == "Ne":
+            self.ne.append(d)
+
+    def _derive(self, t):
+        """case-free consequences: x != y with x <= y known gives x <= y - 1; satsub(x, y) >= 1 gives satsub(x, y) = x - y"""
+        if self._busy:
+            return
+        self._busy = True
+        try:
+            if not self._ne_done:
+                self._ne_done = True
+                for d in self.ne:
+                    if self.prove_ge0(d):
+                        self.ge0.append(as_lin(add(d, const(-1))))
+                    elif self.prove_ge0(neg(d)):
+                        self.ge0.append(as_lin(add(neg(d), const(-1))))
+            pool = set()
+            for l in [t] + list(self.ge0):
+                for a in as_lin(l).m:
+                    if tag(a) == "satsub" and a not in self._sat_done:
+                        pool.add(a)
+            for a in pool:
+                self._sat_done.add(a)
+                if self.prove_ge0(add(a, const(-1))):
+                    self.ge0.append(as_lin(sub(sub(a[1], a[2]), a)))   # x - y - satsub(x, y) >= 0
+        finally:
+            self._busy = False
 
     def _axioms(self, t):
         """axioms relevant to the atoms of t (and of the facts)"""
@@ -99,6 +130,7 @@ class Order:
         t = as_lin(t)
         if t.is_const():
             return t.c >= 0
+        self._derive(t)
         facts = self.ge0 + self._axioms(t)
         # only facts sharing an atom with the goal (or with a fact that does) matter; keep it small
         return self._search(t, facts, depth, set())
